@@ -92,9 +92,11 @@ async fn query_nameserver_udp_notimeout(
     let sock = UdpSocket::bind("0.0.0.0:0").await.ok()?;
     sock.connect(address).await.ok()?;
     send_udp_bytes(&sock, serialised_request).await.ok()?;
-    sock.recv(&mut buf).await.ok()?;
+    let size = sock.recv(&mut buf).await.ok()?;
 
-    Message::from_octets(&buf).ok()
+    // only what was received: parsing the whole zeroed buffer would let the
+    // padding stand in for whatever a short datagram is missing
+    Message::from_octets(&buf[..size]).ok()
 }
 
 /// Send a message to a remote nameserver over TCP, returning the
